@@ -6,6 +6,9 @@ CLAIMED = {
  "C01": ("reference-model lock-step oracle over a state-space sweep and random histories",
          "Every call is executed on the real Memfs and on a reference tree filesystem written from the trait documentation; after every call the result (value or documented error kind) and the complete post state (hook snapshot: names, kinds, bytes, link targets, modes, owners, cwd) must equal an outcome the reference allows, and a failed call must leave the snapshot unchanged. Driven by a breadth-first sweep over all reference states of a bounded namespace x a finite alphabet of every mutator/query/path/spelling (to the fixpoint or a state cap, which the evidence states) and by seeded random histories with hostile data over a larger namespace.",
          "Reference = docs + pinned unit tests; docs-silent either-points accept Ok or Err (counted in the evidence); no intermediate symlink resolution in the reference.", "5/C01"),
+ "C02": ("differential monitor Stdfs vs Memfs with an independent std::fs disk observer",
+         "(a) Every in-domain reference state of the bounded namespace is materialised on disk with std::fs and inside a Memfs (both verified by the observers before use), then every call of a finite alphabet of every mutating and querying method whose arguments do not pass through a symlink runs on both backends: success-or-failure and returned values must be equal and the tree seen by the std::fs observer (names, kinds, bytes, link targets made absolute, permission bits) must equal the Memfs snapshot. (b) Seeded multi-step histories in one sandbox, continued while the state stays in the domain. Half of the worker processes run as root, half as uid 1000 (whose ids equal Memfs's default owner, so owner values are compared there).",
+         "Error kinds, timestamps, tree owners and the process cwd are not compared; after a multi-entry call that fails on both sides the half-done trees are not compared; unprivileged configuration restricted to modes that keep the owner's access; tmpfs or $VERIF_TMP.", "5/C02"),
  "C03": ("invariant walker at a hook (state snapshot) after every call",
          "After every call of the C01 workloads plus an invalid-argument sweep from every swept state, the complete internal state (hook snapshot) is walked for exactly the clauses of the statement (parent exists, is a real directory and lists the child; listed names exist; entry path == key; data records == regular files; reachability from / == all keys; cwd/root absolute; lock not poisoned) and cross-checked through exists()/all_paths()/Display.",
          "Invariants are observed at call boundaries; concurrent quiescent points are covered by C04's runs.", "5/C03"),
